@@ -86,7 +86,8 @@ func c16Config(which string, st Style, widthA int) *SysSpec {
 	}
 	switch which {
 	case "A":
-		sp.Apps = []AppSpec{{Name: "rA0", Type: "Rec"}, {Name: "rA1", Type: "Rec"}, {Name: "fA", Type: "File", FileDir: "/logs", FileName: "a.log", Width: widthA}, {Name: "cA", Type: "Console", Width: widthA}}
+		// rS is referenced by nobody; it logs through a tag from inside its Start, i.e. while Refresh is under way
+		sp.Apps = []AppSpec{{Name: "rA0", Type: "Rec"}, {Name: "rA1", Type: "Rec"}, {Name: "fA", Type: "File", FileDir: "/logs", FileName: "a.log", Width: widthA}, {Name: "cA", Type: "Console", Width: widthA}, {Name: "rS", Type: "Rec", StartLog: true}}
 		sp.Logs = []LogSpec{
 			{Name: "root", Type: "Logger", Refs: []RefSpec{{Ref: "rA0"}, {Ref: "cA", Level: "FATAL"}}},
 			{Name: "svc", Type: "AsyncLogger", Tags: []string{"svc_*", "_app_*"}, BufferSize: 100, Policy: "Block", Refs: []RefSpec{{Ref: "rA1"}, {Ref: "fA", Level: "WARN"}}},
@@ -225,6 +226,18 @@ func (c16) Run(x *Exec, scn any) {
 		}
 		return out
 	}
+	// an application loads its configuration once and hands the same map to every Refresh
+	// (odd map seeds; the others build a fresh map per call)
+	cfgA, cfgB := c16Config("A", s.Style, s.WidthA).Render(), c16Config("B", s.Style, 0).Render()
+	configOf := func(which string) map[string]string {
+		if s.Knobs.MapSeed%2 == 1 {
+			if which == "A" {
+				return cfgA
+			}
+			return cfgB
+		}
+		return c16Config(which, s.Style, map[string]int{"A": s.WidthA}[which]).Render()
+	}
 	for k, op := range s.Ops {
 		before := count()
 		var pv any
@@ -235,10 +248,10 @@ func (c16) Run(x *Exec, scn any) {
 		x.Sim.Spawn(fmt.Sprintf("op%d", k), func() {
 			switch op.Op {
 			case "refreshA":
-				pv, pst = call(func() { err = log.Refresh(c16Config("A", s.Style, s.WidthA).Render()) })
+				pv, pst = call(func() { err = log.Refresh(configOf("A")) })
 				pst = panicSite(pst)
 			case "refreshB":
-				pv, pst = call(func() { err = log.Refresh(c16Config("B", s.Style, 0).Render()) })
+				pv, pst = call(func() { err = log.Refresh(configOf("B")) })
 				pst = panicSite(pst)
 			case "refreshBadEarly", "refreshBadLate":
 				pv, pst = call(func() { err = log.Refresh(c16Bad(op.Arg, s.Style)) })
@@ -303,6 +316,10 @@ func (c16) Run(x *Exec, scn any) {
 			which := strings.TrimPrefix(op.Op, "refresh")
 			if pv != nil {
 				o.violate("refresh-panic", "C16/refresh-panic/"+pst, "%s panicked: %v", desc, pv)
+				break
+			}
+			if sp := getRec("rS").StartPanic; sp != "" {
+				o.violate("log-during-refresh-panic", "C16/log-call-from-a-starting-component-panicked", "%s: an appender that logs through a tag from inside its Start saw that call panic: %s", desc, sp)
 				break
 			}
 			// requested handles must exist in the configuration
